@@ -118,8 +118,39 @@ def shared_payload_and_lost_response_cases(tier, seed):
                 i += 1
 
 
+def big_payload_cases(tier, seed):
+    """Delivered payloads above the 256 kB checkpoint limit: the context that awaited them (wait_for_callback, a child context, a
+    branch) is recorded as a summary and rebuilt on replay - the awaiting code must see the same payload in every later invocation."""
+    i = 0
+    big = "y" * (300 * 1024)
+    for kind in ("wfcb", "cb", "invoke"):
+        for shape in ("top", "child", "branch"):
+            for when in ("between", "immediate", {"api_after_start": 1}):
+                if tier == "quick" and (i % 3 == 1):
+                    i += 1
+                    continue
+                if kind == "wfcb":
+                    node, res = {"k": "wfcb"}, big
+                elif kind == "cb":
+                    node, res = {"k": "cb", "between": [{"k": "step", "val": 5}]}, big
+                else:
+                    node, res = {"k": "invoke", "fn": "target-big", "payload": {"a": 1}}, '"%s"' % big
+                body = [{"k": "step", "val": "pre"}, {"k": "try", "body": node, "catch": "*"}, {"k": "wait", "s": 1}, {"k": "step", "val": "post"}, {"k": "wait", "s": 1}]
+                cpath = "1"
+                if shape == "branch":
+                    body = [{"k": "par", "branches": [{"body": body}, {"body": [{"k": "step", "val": 1}]}], "cfg": {"preset": "all_completed"}}, {"k": "wait", "s": 1}]
+                    cpath = "0/b0/1"
+                elif shape == "child":
+                    body = [{"k": "child", "body": body[:2]}, {"k": "wait", "s": 1}, {"k": "step", "val": "post"}, {"k": "wait", "s": 1}, {"k": "step", "val": "end"}]
+                    cpath = "0/1"
+                yield {"label": "ext-big-%s-%s" % (kind, shape), "prog": {"body": body}, "prog_seed": 9700 + i, "pattern": {"p": "plain"}, "max_inv": 14,
+                       "world": {"complete": {cpath: {"when": when, "status": "SUCCEEDED", "result": res}}, "timers": "all"}}
+                i += 1
+
+
 def explicit_all(tier, seed):
     yield from explicit(tier, seed)
+    yield from big_payload_cases(tier, seed)
     yield from undecodable_cases(tier, seed)
     yield from shared_payload_and_lost_response_cases(tier, seed)
 
